@@ -1,13 +1,842 @@
 /-
-C05 — Range reassembly is fragmentation-independent, verified and confined (theorems about `Dl.lean`).
+C05 — Range reassembly is fragmentation-independent, verified and confined.
+Theorems about the model of the download callbacks (`Dl.lean`), for an ARBITRARY hash function, ARBITRARY
+regex oracle (whatever `regcomp`/`regexec` answer) and ARBITRARY bytes and fragmentations unless a
+hypothesis says otherwise.
 -/
 import ZckModel.Dl
 import ZckModel.Pred.Dl
 import ZckModel.Props.C08
+import ZckModel.Props.C13
 
 namespace Zck.C05
-open Zck Zck.Format Zck.Dl
+open Zck Zck.Format Zck.Dl Zck.Copy
 
-theorem placeholder_true : True := trivial
+/-! ### the invariant of a feeding session -/
+
+/-- chunk `k` may be filled: it was not valid when the session began and it is in the request -/
+def Allowed (e : Env) (v0 : List Int) (k : Nat) : Prop := v0.getD k 0 ≠ 1 ∧ ∃ rc ∈ e.ridx, rc.tgt = k
+
+/-- offset `i` is outside the extents of all chunks that may be filled (header, valid chunks, chunks not requested,
+anything beyond the data) -/
+def Outside (e : Env) (v0 : List Int) (i : Nat) : Prop :=
+  ∀ k tc, e.hdr.chunks[k]? = some tc → Allowed e v0 k →
+    (i < e.dataOff + tc.start ∨ e.dataOff + tc.start + tc.compLen ≤ i)
+
+/-- what every callback preserves (`f0`, `v0`: target file and chunk marks when the session began) -/
+structure Good (e : Env) (f0 : Bytes) (v0 : List Int) (st : St) : Prop where
+  file : ∀ i, Outside e v0 i → st.file.getD i 0 = f0.getD i 0
+  keep : ∀ k, v0.getD k 0 = 1 → st.valid.getD k 0 = 1
+  chk  : ∀ k, st.tgtCheck = some k → Allowed e v0 k ∧ ∃ tc, e.hdr.chunks[k]? = some tc
+  wic  : st.writeInChunk > 0 → ∃ k tc, st.tgtCheck = some k ∧ e.hdr.chunks[k]? = some tc ∧
+           e.dataOff + tc.start ≤ st.pos ∧ st.pos + st.writeInChunk = e.dataOff + tc.start + tc.compLen
+
+theorem Good.congr {e : Env} {f0 : Bytes} {v0 : List Int} {st st' : St} (h : Good e f0 v0 st)
+    (h1 : st'.file = st.file) (h2 : st'.valid = st.valid) (h3 : st'.tgtCheck = st.tgtCheck)
+    (h4 : st'.writeInChunk = st.writeInChunk) (h5 : st'.pos = st.pos) : Good e f0 v0 st' :=
+  ⟨by rw [h1]; exact h.file, by rw [h2]; exact h.keep, by rw [h3]; exact h.chk, by rw [h3, h4, h5]; exact h.wic⟩
+
+theorem getD_set_ne (l : List Int) (k k' : Nat) (v : Int) (h : k' ≠ k) : (l.set k v).getD k' 0 = l.getD k' 0 := by
+  simp [List.getD, h.symm]
+
+/-- `zero_chunk` on a chunk that may be filled -/
+theorem zeroChunk_file (e : Env) (v0 : List Int) (st : St) (k : Nat) (c : Chunk) (hc : e.hdr.chunks[k]? = some c)
+    (ha : Allowed e v0 k) (i : Nat) (hi : Outside e v0 i) :
+    (zeroChunk e st c).file.getD i 0 = st.file.getD i 0 := by
+  unfold zeroChunk
+  simp only
+  apply C08.writeAt_outside
+  have := hi k c hc ha
+  simp only [zeros, List.length_replicate]
+  omega
+
+theorem good_setChunkValid (e : Env) (f0 : Bytes) (v0 : List Int) (st : St) (k : Nat)
+    (h : Good e f0 v0 st) (hk : st.tgtCheck = some k) (hw : st.writeInChunk = 0) :
+    Good e f0 v0 (setChunkValid e st k).2 ∧ (setChunkValid e st k).2.writeInChunk = 0 := by
+  obtain ⟨ha, tc, htc⟩ := h.chk k hk
+  unfold setChunkValid
+  rw [htc]
+  simp only
+  have hkeep : ∀ (l : List Int) (v : Int), (∀ k', v0.getD k' 0 = 1 → l.getD k' 0 = 1) →
+      ∀ k', v0.getD k' 0 = 1 → (l.set k v).getD k' 0 = 1 := by
+    intro l v hl k' hk'
+    have : k' ≠ k := by intro heq; rw [heq] at hk'; exact ha.1 hk'
+    rw [getD_set_ne _ _ _ _ this]; exact hl k' hk'
+  cases hh : st.hash with
+  | none =>
+    simp only
+    refine ⟨⟨?_, ?_, ?_, ?_⟩, ?_⟩
+    · intro i hi
+      have := zeroChunk_file e v0 { st with err := true, valid := st.valid.set k 0 } k tc htc ha i hi
+      simp only [zeroChunk] at this ⊢
+      rw [this]; exact h.file i hi
+    · simp only [zeroChunk]
+      exact hkeep _ _ (hkeep _ _ h.keep)
+    · intro k' hk'
+      simp only [zeroChunk] at hk'
+      exact h.chk k' hk'
+    · intro hpos
+      simp only [zeroChunk] at hpos
+      omega
+    · simp only [zeroChunk]; exact hw
+  | some acc =>
+    simp only
+    generalize (if tc.compLen = 0 then (hsize e.hdr.chunkHashType).map zeros else e.H e.hdr.chunkHashType acc) = dg
+    by_cases hd : (dg == some tc.digest) = true
+    · simp only [hd, ↓reduceIte]
+      refine ⟨⟨?_, ?_, ?_, ?_⟩, ?_⟩
+      · exact h.file
+      · exact hkeep _ _ h.keep
+      · intro k' hk'; simp at hk'
+      · intro hpos; simp only at hpos; omega
+      · exact hw
+    · simp only [hd, Bool.false_eq_true, ↓reduceIte]
+      refine ⟨⟨?_, ?_, ?_, ?_⟩, ?_⟩
+      · intro i hi
+        have := zeroChunk_file e v0 { st with hash := none } k tc htc ha i hi
+        simp only [zeroChunk] at this ⊢
+        rw [this]; exact h.file i hi
+      · simp only [zeroChunk]
+        exact hkeep _ _ h.keep
+      · intro k' hk'
+        simp only [zeroChunk] at hk'
+        exact h.chk k' hk'
+      · intro hpos
+        simp only [zeroChunk] at hpos
+        omega
+      · simp only [zeroChunk]; exact hw
+
+theorem good_dlWrite (e : Env) (f0 : Bytes) (v0 : List Int) (st : St) (at_ : Bytes) (h : Good e f0 v0 st) :
+    Good e f0 v0 (dlWrite st at_).2 := by
+  unfold dlWrite
+  by_cases hw : st.writeInChunk > 0
+  · simp only [hw, ↓reduceIte]
+    obtain ⟨k, tc, hk, htc, hlo, hhi⟩ := h.wic hw
+    obtain ⟨ha, _⟩ := h.chk k hk
+    generalize hwb : (if st.writeInChunk < at_.length then st.writeInChunk else at_.length) = wb
+    have hwb1 : wb ≤ st.writeInChunk := by rw [← hwb]; split <;> omega
+    have hwb2 : wb ≤ at_.length := by rw [← hwb]; split <;> omega
+    have hbase : Good e f0 v0 { st with file := writeAt st.file st.pos (at_.take wb), pos := st.pos + wb, writeInChunk := st.writeInChunk - wb } := by
+      refine ⟨?_, h.keep, h.chk, ?_⟩
+      · intro i hi
+        simp only
+        rw [C08.writeAt_outside _ _ _ _ (by
+          have := hi k tc htc ha
+          simp only [List.length_take]
+          omega)]
+        exact h.file i hi
+      · intro hpos
+        simp only at hpos ⊢
+        exact ⟨k, tc, hk, htc, by omega, by omega⟩
+    by_cases h0 : wb = 0
+    · simp only [h0, ↓reduceIte]
+      exact (h0 ▸ hbase).congr rfl rfl rfl rfl rfl
+    · simp only [h0, ↓reduceIte]
+      cases hh : st.hash with
+      | none => simp only; exact hbase.congr rfl rfl rfl rfl rfl
+      | some acc => simp only; exact hbase.congr rfl rfl rfl rfl rfl
+  · simp only [hw, ↓reduceIte]; exact h
+
+theorem findNext_spec (e : Env) (st : St) : ∀ (l : List RChunk) (j j' : Nat) (rc : RChunk),
+    findNext e st l j = some (j', rc) →
+      rc ∈ l ∧ st.valid.getD rc.tgt 0 ≠ 1 ∧ ∃ tc, e.hdr.chunks[rc.tgt]? = some tc ∧ rc.compLen = tc.compLen
+  | [], _, _, _, h => by simp [findNext] at h
+  | r :: rest, j, j', rc, h => by
+    unfold findNext at h
+    split at h
+    · have := findNext_spec e st rest (j + 1) j' rc h
+      exact ⟨List.mem_cons_of_mem _ this.1, this.2⟩
+    · split at h
+      · have := findNext_spec e st rest (j + 1) j' rc h
+        exact ⟨List.mem_cons_of_mem _ this.1, this.2⟩
+      · rename_i hv
+        split at h
+        · rename_i tc htc
+          split at h
+          · rename_i hsz
+            simp only [Option.some.injEq, Prod.mk.injEq] at h
+            obtain ⟨_, rfl⟩ := h
+            exact ⟨List.mem_cons_self, hv, tc, htc, hsz⟩
+          · have := findNext_spec e st rest (j + 1) j' rc h
+            exact ⟨List.mem_cons_of_mem _ this.1, this.2⟩
+        · have := findNext_spec e st rest (j + 1) j' rc h
+          exact ⟨List.mem_cons_of_mem _ this.1, this.2⟩
+
+theorem good_dlVerify (e : Env) (f0 : Bytes) (v0 : List Int) (st : St)
+    (h : Good e f0 v0 st) (hw : st.writeInChunk = 0) :
+    Good e f0 v0 (dlVerify e st).2 ∧ (dlVerify e st).2.writeInChunk = 0 := by
+  unfold dlVerify
+  cases hk : st.tgtCheck with
+  | none => exact ⟨h, hw⟩
+  | some k => exact good_setChunkValid e f0 v0 st k h hk hw
+
+theorem good_dlOpen (e : Env) (f0 : Bytes) (v0 : List Int) (st : St) (hg : Good e f0 v0 st) :
+    Good e f0 v0 (dlOpen e st) := by
+  unfold dlOpen
+  simp only
+  generalize hcur : (if st.curNull = true ∨ st.cur ≥ e.ridx.length then 0 else st.cur) = cur
+  have hg2 : Good e f0 v0 { st with cur := cur, curNull := false } := hg.congr rfl rfl rfl rfl rfl
+  cases hf : findNext e { st with cur := cur, curNull := false } (e.ridx.drop cur) cur with
+  | none => simp only; exact hg2
+  | some p =>
+    obtain ⟨j, rc⟩ := p
+    simp only
+    obtain ⟨hmem, hnv, tc, htc, hsz⟩ := findNext_spec e _ _ _ _ _ hf
+    simp only at hnv
+    rw [htc]
+    simp only
+    have hal : Allowed e v0 rc.tgt := ⟨fun h1 => hnv (hg.keep _ h1), rc, List.mem_of_mem_drop hmem, rfl⟩
+    refine ⟨hg.file, hg.keep, ?_, ?_⟩
+    · intro k hk
+      simp only [Option.some.injEq] at hk
+      subst hk
+      exact ⟨hal, tc, htc⟩
+    · intro _
+      exact ⟨rc.tgt, tc, rfl, htc, Nat.le_refl _, by simp only; omega⟩
+
+/-! ### generic preservation: a predicate on the six fields the write path uses, kept by the three primitive steps, is kept
+by every callback -/
+
+structure Preserved (e : Env) (P : St → Prop) : Prop where
+  frame  : ∀ st st' : St, P st → st'.file = st.file → st'.pos = st.pos → st'.valid = st.valid → st'.hash = st.hash →
+             st'.writeInChunk = st.writeInChunk → st'.tgtCheck = st.tgtCheck → P st'
+  write  : ∀ st at_, P st → P (dlWrite st at_).2
+  verify : ∀ st, P st → st.writeInChunk = 0 → P (dlVerify e st).2 ∧ (dlVerify e st).2.writeInChunk = 0
+  opens  : ∀ st, P st → st.writeInChunk = 0 → P (dlOpen e st)
+
+theorem pres_dlSelect (e : Env) {P : St → Prop} (hp : Preserved e P) (st : St)
+    (h : P st) (hw : st.writeInChunk = 0) : P (dlSelect e st).2 := by
+  unfold dlSelect
+  have hv := hp.verify st h hw
+  simp only
+  split
+  · exact hv.1
+  · exact hp.opens _ hv.1 hv.2
+
+theorem pres_dlWriteRange (e : Env) {P : St → Prop} (hp : Preserved e P) : ∀ (fuel : Nat) (st : St) (at_ : Bytes),
+    P st → P (dlWriteRange e fuel st at_).2
+  | 0, st, _, h => by unfold dlWriteRange; exact hp.frame _ _ h rfl rfl rfl rfl rfl rfl
+  | fuel + 1, st, at_, h => by
+    unfold dlWriteRange
+    split
+    · exact h
+    · split
+      · exact hp.frame _ _ h rfl rfl rfl rfl rfl rfl
+      · have hw := hp.write st at_ h
+        split
+        · rename_i st1 heq
+          rw [heq] at hw; exact hw
+        · rename_i wb st1 heq
+          rw [heq] at hw
+          simp only at hw
+          have hr : P (if st1.writeInChunk = 0 then dlSelect e st1 else (true, st1)).2 := by
+            split
+            · rename_i h0; exact pres_dlSelect e hp st1 hw h0
+            · exact hw
+          generalize (if st1.writeInChunk = 0 then dlSelect e st1 else (true, st1)) = r at hr ⊢
+          simp only
+          split
+          · exact hr
+          · split
+            · have := pres_dlWriteRange e hp fuel r.2 (at_.drop wb) hr
+              split
+              · exact this
+              · exact this
+            · exact hr
+
+theorem pres_mpPartHeader (e : Env) {P : St → Prop} (hp : Preserved e P) (s : Bytes) (st : St) (h : P st) :
+    P (mpPartHeader e s st).2 := by
+  unfold mpPartHeader
+  split
+  · split
+    · split
+      · simp only; split
+        · exact h
+        · exact hp.frame _ _ h rfl rfl rfl rfl rfl rfl
+      · exact hp.frame _ _ h rfl rfl rfl rfl rfl rfl
+    · split
+      · exact hp.frame _ _ h rfl rfl rfl rfl rfl rfl
+      · exact hp.frame _ _ h rfl rfl rfl rfl rfl rfl
+  · exact hp.frame _ _ h rfl rfl rfl rfl rfl rfl
+
+theorem pres_mpPayload (e : Env) {P : St → Prop} (hp : Preserved e P) (buf : Bytes) (i hs : Nat) (st : St) (h : P st) :
+    P (mpPayload e buf i hs st).2.2.2 := by
+  unfold mpPayload
+  simp only
+  split
+  · exact pres_dlWriteRange e hp _ _ _ (hp.frame _ _ h rfl rfl rfl rfl rfl rfl)
+  · exact pres_dlWriteRange e hp _ _ _ (hp.frame _ _ h rfl rfl rfl rfl rfl rfl)
+
+theorem pres_mpLoop (e : Env) {P : St → Prop} (hp : Preserved e P) : ∀ (fuel : Nat) (buf : Bytes) (i hs : Nat) (st : St),
+    P st → P (mpLoop e fuel buf i hs st).2
+  | 0, _, _, _, st, h => by unfold mpLoop; exact hp.frame _ _ h rfl rfl rfl rfl rfl rfl
+  | fuel + 1, buf, i, hs, st, h => by
+    unfold mpLoop
+    simp only
+    split
+    · split
+      · exact h
+      · have hq := pres_mpPayload e hp buf i hs st h
+        generalize mpPayload e buf i hs st = r at hq ⊢
+        obtain ⟨size, hs', ok, st'⟩ := r
+        simp only at hq ⊢
+        split
+        · exact hq
+        · exact pres_mpLoop e hp fuel buf _ _ st' hq
+    · split
+      · split
+        · exact hp.frame _ _ h rfl rfl rfl rfl rfl rfl
+        · exact h
+      · split
+        · exact pres_mpLoop e hp fuel buf _ _ st h
+        · rename_i j _
+          have hq := pres_mpPartHeader e hp (cstr ((buf.set (j + 3) 0).drop i)) st h
+          split
+          · rename_i heq; rw [heq] at hq; exact hq
+          · rename_i heq; rw [heq] at hq; exact pres_mpLoop e hp fuel _ _ _ _ hq
+
+theorem pres_genRegex (e : Env) {P : St → Prop} (hp : Preserved e P) (st : St) (h : P st) :
+    P (genRegex e st).2 := by
+  unfold genRegex
+  simp only
+  split
+  · exact hp.frame _ _ h rfl rfl rfl rfl rfl rfl
+  · split
+    · exact hp.frame _ _ h rfl rfl rfl rfl rfl rfl
+    · exact hp.frame _ _ h rfl rfl rfl rfl rfl rfl
+
+theorem pres_mpExtract (e : Env) {P : St → Prop} (hp : Preserved e P) (st : St) (b : Bytes) (h : P st) :
+    P (mpExtract e st b).2 := by
+  unfold mpExtract
+  split
+  · exact h
+  · simp only
+    have h1 : P (mpJoin st b).2 := by
+      unfold mpJoin
+      split
+      · exact hp.frame _ _ h rfl rfl rfl rfl rfl rfl
+      · exact h
+    have h2 : P (mpEnsureRx e (mpJoin st b).2).2 := by
+      unfold mpEnsureRx
+      split
+      · exact pres_genRegex e hp _ h1
+      · exact h1
+    split
+    · exact h2
+    · exact pres_mpLoop e hp _ _ _ _ _ h2
+
+theorem pres_getBoundary (e : Env) {P : St → Prop} (hp : Preserved e P) (st : St) (b : Bytes) (h : P st) :
+    P (getBoundary e st b) := by
+  unfold getBoundary
+  split
+  · exact h
+  · split
+    · exact hp.frame _ _ h rfl rfl rfl rfl rfl rfl
+    · rename_i st1 heq
+      have h1 : P st1 := by
+        unfold hdrEnsureRx at heq
+        split at heq
+        · split at heq
+          · simp only [Option.some.injEq] at heq; subst heq; exact hp.frame _ _ h rfl rfl rfl rfl rfl rfl
+          · simp at heq
+        · simp only [Option.some.injEq] at heq; subst heq; exact h
+      split
+      · exact hp.frame _ _ h1 rfl rfl rfl rfl rfl rfl
+      · simp only
+        split
+        · exact h1
+        · split
+          · exact hp.frame _ _ h1 rfl rfl rfl rfl rfl rfl
+          · exact hp.frame _ _ h1 rfl rfl rfl rfl rfl rfl
+
+theorem pres_writeChunkCb (e : Env) {P : St → Prop} (hp : Preserved e P) (st : St) (b : Bytes) (h : P st) :
+    P (writeChunkCb e st b).2 := by
+  unfold writeChunkCb
+  simp only
+  have h0 : P { st with dlBytes := st.dlBytes + b.length } := hp.frame _ _ h rfl rfl rfl rfl rfl rfl
+  split
+  · exact pres_mpExtract e hp _ b h0
+  · exact pres_dlWriteRange e hp _ _ b h0
+
+theorem pres_feed (e : Env) {P : St → Prop} (hp : Preserved e P) (stop clear : Bool) : ∀ (frags : List Bytes) (st : St) (acc : List Nat),
+    P st → P (feed e stop clear st frags acc).2
+  | [], st, acc, h => by unfold feed; exact h
+  | b :: rest, st, acc, h => by
+    unfold feed
+    have h1 := pres_writeChunkCb e hp st b h
+    generalize writeChunkCb e st b = r at h1 ⊢
+    obtain ⟨r1, st1⟩ := r
+    simp only at h1 ⊢
+    split
+    · exact h1
+    · apply pres_feed e hp stop clear rest
+      split
+      · exact hp.frame _ _ h1 rfl rfl rfl rfl rfl rfl
+      · exact h1
+
+theorem pres_feedHdrs (e : Env) {P : St → Prop} (hp : Preserved e P) : ∀ (lines : List Bytes) (st : St) (acc : List Nat),
+    P st → P (feedHdrs e st lines acc).2
+  | [], st, acc, h => by unfold feedHdrs; exact h
+  | b :: rest, st, acc, h => by
+    unfold feedHdrs
+    simp only [headerCb]
+    exact pres_feedHdrs e hp rest _ _ (pres_getBoundary e hp st b h)
+
+/-- a session starts with no chunk open -/
+theorem good_init (e : Env) (st : St) (h1 : st.tgtCheck = none) (h2 : st.writeInChunk = 0) :
+    Good e st.file st.valid st :=
+  ⟨fun _ _ => rfl, fun _ h => h, fun k hk => by rw [h1] at hk; simp at hk, fun hpos => by omega⟩
+
+theorem good_preserved (e : Env) (f0 : Bytes) (v0 : List Int) : Preserved e (Good e f0 v0) where
+  frame := fun _ _ h h1 h5 h2 _ h4 h3 => h.congr h1 h2 h3 h4 h5
+  write := fun st at_ h => good_dlWrite e f0 v0 st at_ h
+  verify := fun st h hw => good_dlVerify e f0 v0 st h hw
+  opens := fun st h _ => good_dlOpen e f0 v0 st h
+
+/-- **C05 / C17 (confinement)**: whatever bytes arrive as header lines and as body, however they are cut into callback
+invocations, whatever the regex functions answer, and whether or not the transport stops at a refusal or the application
+clears errors: no byte of the target outside the extents of the requested, not yet valid chunks changes — not the header,
+not a valid chunk, nothing beyond the data — and every chunk that was valid stays marked valid. -/
+theorem confined (e : Env) (st : St) (lines frags : List Bytes) (stop clear : Bool)
+    (h1 : st.tgtCheck = none) (h2 : st.writeInChunk = 0) :
+    let fin := (feed e stop clear (feedHdrs e st lines []).2 frags []).2
+    (∀ i, Outside e st.valid i → fin.file.getD i 0 = st.file.getD i 0) ∧
+    (∀ k, st.valid.getD k 0 = 1 → fin.valid.getD k 0 = 1) := by
+  have hg := pres_feed e (good_preserved e st.file st.valid) stop clear frags _ []
+    (pres_feedHdrs e (good_preserved e st.file st.valid) lines st [] (good_init e st h1 h2))
+  exact ⟨hg.file, hg.keep⟩
+
+/-! ### verification: a chunk is marked valid only when the bytes at its extent hash to its checksum -/
+
+theorem writeAt_length (f : Bytes) (off : Nat) (bs : Bytes) (h : bs ≠ []) :
+    (writeAt f off bs).length = max f.length (off + bs.length) := by
+  unfold writeAt
+  have : bs.isEmpty = false := by cases bs <;> simp_all
+  simp only [this, Bool.false_eq_true, ↓reduceIte, List.length_append, List.length_take, zeros, List.length_replicate,
+    List.length_drop]
+  omega
+
+theorem writeAt_length_ge (f : Bytes) (off : Nat) (bs : Bytes) : f.length ≤ (writeAt f off bs).length := by
+  by_cases h : bs = []
+  · subst h; simp [writeAt]
+  · rw [writeAt_length f off bs h]; omega
+
+theorem slice_eq_of_getD (f g : Bytes) (s n : Nat) (hf : s + n ≤ f.length) (hg : s + n ≤ g.length)
+    (h : ∀ i, s ≤ i → i < s + n → g.getD i 0 = f.getD i 0) : (g.drop s).take n = (f.drop s).take n := by
+  apply List.ext_getElem?
+  intro i
+  simp only [List.getElem?_take, List.getElem?_drop]
+  split
+  · rename_i hi
+    have := h (s + i) (by omega) (by omega)
+    simp only [List.getD_eq_getElem?_getD] at this
+    rw [List.getElem?_eq_getElem (by omega), List.getElem?_eq_getElem (by omega)] at this ⊢
+    simpa using this
+  · rfl
+
+theorem slice_writeAt_disjoint (f : Bytes) (off : Nat) (bs : Bytes) (s n : Nat)
+    (hd : off + bs.length ≤ s ∨ s + n ≤ off) (hf : s + n ≤ f.length) :
+    ((writeAt f off bs).drop s).take n = (f.drop s).take n ∧ s + n ≤ (writeAt f off bs).length := by
+  have hl := writeAt_length_ge f off bs
+  refine ⟨slice_eq_of_getD f _ s n hf (by omega) ?_, by omega⟩
+  intro i h1 h2
+  apply C08.writeAt_outside
+  omega
+
+theorem slice_writeAt_append (f : Bytes) (s : Nat) (acc d : Bytes)
+    (h : (f.drop s).take acc.length = acc) :
+    ((writeAt f (s + acc.length) d).drop s).take (acc.length + d.length) = acc ++ d := by
+  by_cases hd : d = []
+  · subst hd; simp [writeAt, h]
+  · have hlen : acc = [] ∨ s + acc.length ≤ f.length := by
+      by_cases ha : acc = []
+      · left; exact ha
+      · right
+        have := congrArg List.length h
+        simp only [List.length_take, List.length_drop] at this
+        have hpos : 0 < acc.length := List.length_pos_iff.mpr ha
+        omega
+    have hw := C08.writeAt_readback f (s + acc.length) d
+    have hwl := writeAt_length f (s + acc.length) d hd
+    have hdl : 0 < d.length := List.length_pos_iff.mpr hd
+    apply List.ext_getElem?
+    intro i
+    simp only [List.getElem?_take, List.getElem?_drop]
+    split
+    · rename_i hi
+      by_cases hia : i < acc.length
+      · rw [List.getElem?_append_left hia]
+        have hout := C08.writeAt_outside f (s + acc.length) d (s + i) (Or.inl (by omega))
+        have hsl : s + acc.length ≤ f.length := by rcases hlen with h0 | h0; (subst h0; simp at hia); exact h0
+        simp only [List.getD_eq_getElem?_getD] at hout
+        rw [List.getElem?_eq_getElem (by omega), List.getElem?_eq_getElem (by omega)] at hout
+        simp only [Option.getD_some] at hout
+        rw [List.getElem?_eq_getElem (by omega), hout]
+        have h2 := congrArg (fun l => l[i]?) h
+        simp only [List.getElem?_take, List.getElem?_drop, hia, ↓reduceIte] at h2
+        rw [← h2, List.getElem?_eq_getElem (by omega)]
+      · rw [List.getElem?_append_right (by omega)]
+        have h2 := congrArg (fun l => l[i - acc.length]?) hw
+        simp only [List.getElem?_take, List.getElem?_drop] at h2
+        rw [if_pos (by omega)] at h2
+        rw [← h2]
+        congr 1
+        omega
+    · rename_i hi
+      rw [List.getElem?_eq_none (by simp; omega)]
+
+/-- the target holds chunk `tc`: its extent lies inside the file and hashes to the index checksum (the all-zero checksum
+for a chunk without stored bytes) — the reference parser's `storedChecked` -/
+def ChunkOk (e : Env) (f : Bytes) (tc : Chunk) : Prop :=
+  if tc.compLen = 0 then (hsize e.hdr.chunkHashType).map zeros = some tc.digest
+  else e.dataOff + tc.start + tc.compLen ≤ f.length ∧
+    e.H e.hdr.chunkHashType ((f.drop (e.dataOff + tc.start)).take tc.compLen) = some tc.digest
+
+/-- extents of different chunks do not overlap (true of every parsed header: starts are running sums) -/
+def Disj (e : Env) : Prop :=
+  ∀ (k k' : Nat) (tc tc' : Chunk), e.hdr.chunks[k]? = some tc → e.hdr.chunks[k']? = some tc' → k ≠ k' →
+    (tc.start + tc.compLen ≤ tc'.start ∨ tc'.start + tc'.compLen ≤ tc.start)
+
+structure Ver (e : Env) (v0 : List Int) (st : St) : Prop where
+  ok   : ∀ k tc, e.hdr.chunks[k]? = some tc → Allowed e v0 k → st.valid.getD k 0 = 1 → ChunkOk e st.file tc
+  link : ∀ k tc acc, st.tgtCheck = some k → e.hdr.chunks[k]? = some tc → st.hash = some acc →
+           acc.length + st.writeInChunk = tc.compLen ∧ st.pos = e.dataOff + tc.start + acc.length ∧
+           (st.file.drop (e.dataOff + tc.start)).take acc.length = acc
+  notv : ∀ k, st.tgtCheck = some k → st.valid.getD k 0 ≠ 1
+  same : ∀ k, ¬ Allowed e v0 k → st.valid.getD k 0 = v0.getD k 0
+
+def GV (e : Env) (f0 : Bytes) (v0 : List Int) (st : St) : Prop := Good e f0 v0 st ∧ Ver e v0 st
+
+/-- a write inside the extent of chunk `k'` leaves `ChunkOk` of every other chunk alone -/
+theorem chunkOk_writeAt (e : Env) (hd : Disj e) (f : Bytes) (k k' : Nat) (tc tc' : Chunk)
+    (hk : e.hdr.chunks[k]? = some tc) (hk' : e.hdr.chunks[k']? = some tc') (hne : k ≠ k')
+    (off : Nat) (bs : Bytes) (hlo : e.dataOff + tc'.start ≤ off) (hhi : off + bs.length ≤ e.dataOff + tc'.start + tc'.compLen)
+    (h : ChunkOk e f tc) : ChunkOk e (writeAt f off bs) tc := by
+  unfold ChunkOk at h ⊢
+  split
+  · rename_i h0; simpa [h0] using h
+  · rename_i h0
+    simp only [h0, ↓reduceIte] at h
+    have := hd k k' tc tc' hk hk' hne
+    have hs := slice_writeAt_disjoint f off bs (e.dataOff + tc.start) tc.compLen (by omega) h.1
+    rw [hs.1]
+    exact ⟨hs.2, h.2⟩
+
+theorem gv_dlWrite (e : Env) (hd : Disj e) (f0 : Bytes) (v0 : List Int) (st : St) (at_ : Bytes) (h : GV e f0 v0 st) :
+    GV e f0 v0 (dlWrite st at_).2 := by
+  refine ⟨good_dlWrite e f0 v0 st at_ h.1, ?_⟩
+  obtain ⟨hg, hv⟩ := h
+  unfold dlWrite
+  by_cases hw : st.writeInChunk > 0
+  · simp only [hw, ↓reduceIte]
+    obtain ⟨k, tc, hk, htc, hlo, hhi⟩ := hg.wic hw
+    generalize hwb : (if st.writeInChunk < at_.length then st.writeInChunk else at_.length) = wb
+    have hwb1 : wb ≤ st.writeInChunk := by rw [← hwb]; split <;> omega
+    have hwb2 : wb ≤ at_.length := by rw [← hwb]; split <;> omega
+    have hlen : (at_.take wb).length = wb := by simp; omega
+    -- `ok` after the write, whatever happens to the hash
+    have hok : ∀ k2 tc2, e.hdr.chunks[k2]? = some tc2 → Allowed e v0 k2 → st.valid.getD k2 0 = 1 →
+        ChunkOk e (writeAt st.file st.pos (at_.take wb)) tc2 := by
+      intro k2 tc2 h2 ha2 hv2
+      have hne : k2 ≠ k := by intro heq; subst heq; exact hv.notv _ hk hv2
+      exact chunkOk_writeAt e hd st.file k2 k tc2 tc h2 htc hne st.pos _ hlo (by rw [hlen]; omega) (hv.ok k2 tc2 h2 ha2 hv2)
+    by_cases h0 : wb = 0
+    · simp only [h0, ↓reduceIte]
+      refine ⟨?_, ?_, hv.notv, hv.same⟩
+      · intro k2 tc2 h2 ha2 hv2
+        have := hok k2 tc2 h2 ha2 hv2
+        rw [h0] at this; simpa using this
+      · intro k2 tc2 acc hk2 h2 hacc
+        simp only at hk2 hacc ⊢
+        have := hv.link k2 tc2 acc hk2 h2 hacc
+        simpa [writeAt] using this
+    · simp only [h0, ↓reduceIte]
+      cases hh : st.hash with
+      | none =>
+        simp only
+        refine ⟨hok, ?_, hv.notv, hv.same⟩
+        intro k2 tc2 acc hk2 h2 hacc
+        simp at hacc
+      | some acc =>
+        simp only
+        refine ⟨hok, ?_, hv.notv, hv.same⟩
+        intro k2 tc2 acc2 hk2 h2 hacc
+        simp only at hk2 hacc ⊢
+        simp only [Option.some.injEq] at hacc
+        subst hacc
+        have hk2' : k2 = k := by rw [hk] at hk2; simpa using hk2.symm
+        subst hk2'
+        have htc2 : tc2 = tc := by rw [htc] at h2; simpa using h2.symm
+        subst htc2
+        obtain ⟨l1, l2, l3⟩ := hv.link k2 tc2 acc hk htc hh
+        refine ⟨by simp only [List.length_append, hlen]; omega, by simp only [List.length_append, hlen]; omega, ?_⟩
+        have := slice_writeAt_append st.file (e.dataOff + tc2.start) acc (at_.take wb) l3
+        rw [← l2, hlen] at this
+        simpa [List.length_append, hlen] using this
+  · simp only [hw, ↓reduceIte]; exact hv
+
+theorem getD_set_self_ne_one (l : List Int) (k : Nat) (v : Int) (hv : v ≠ 1) (h : l.getD k 0 ≠ 1) :
+    (l.set k v).getD k 0 ≠ 1 := by
+  simp only [List.getD_eq_getElem?_getD, List.getElem?_set] at h ⊢
+  by_cases hk : k < l.length
+  · simp [hk, hv]
+  · simp [hk]
+
+/-- zero-filling the extent of the chunk under verification and marking it `v ≠ 1` keeps `Ver` -/
+theorem ver_fail (e : Env) (hd : Disj e) (v0 : List Int) (st : St) (k : Nat) (tc : Chunk) (valid' : List Int)
+    (hv : Ver e v0 st) (hk : st.tgtCheck = some k) (htc : e.hdr.chunks[k]? = some tc) (ha : Allowed e v0 k)
+    (hval : ∀ k2, k2 ≠ k → valid'.getD k2 0 = st.valid.getD k2 0) (hvk : valid'.getD k 0 ≠ 1) (st' : St)
+    (hf : st'.file = writeAt st.file (e.dataOff + tc.start) (zeros tc.compLen)) (hva : st'.valid = valid')
+    (hh : st'.hash = none) (ht : st'.tgtCheck = some k) : Ver e v0 st' := by
+  refine ⟨?_, ?_, ?_, ?_⟩
+  · intro k2 tc2 h2 ha2 hv2
+    rw [hva] at hv2
+    have hne : k2 ≠ k := by intro heq; subst heq; exact hvk hv2
+    rw [hval k2 hne] at hv2
+    rw [hf]
+    exact chunkOk_writeAt e hd st.file k2 k tc2 tc h2 htc hne _ _ (Nat.le_refl _) (by simp [zeros]) (hv.ok k2 tc2 h2 ha2 hv2)
+  · intro k2 tc2 acc _ _ hacc
+    rw [hh] at hacc; simp at hacc
+  · intro k2 hk2
+    rw [ht] at hk2
+    simp only [Option.some.injEq] at hk2
+    subst hk2
+    rw [hva]; exact hvk
+  · intro k2 hn
+    have hne : k2 ≠ k := by intro heq; subst heq; exact hn ha
+    rw [hva, hval k2 hne]
+    exact hv.same k2 hn
+
+theorem gv_setChunkValid (e : Env) (hd : Disj e) (f0 : Bytes) (v0 : List Int) (st : St) (k : Nat)
+    (h : GV e f0 v0 st) (hk : st.tgtCheck = some k) (hw : st.writeInChunk = 0) :
+    GV e f0 v0 (setChunkValid e st k).2 ∧ (setChunkValid e st k).2.writeInChunk = 0 := by
+  have hg := good_setChunkValid e f0 v0 st k h.1 hk hw
+  refine ⟨⟨hg.1, ?_⟩, hg.2⟩
+  obtain ⟨hgood, hv⟩ := h
+  obtain ⟨ha, tc, htc⟩ := hgood.chk k hk
+  have hnv := hv.notv k hk
+  unfold setChunkValid
+  rw [htc]
+  simp only
+  cases hh : st.hash with
+  | none =>
+    simp only
+    apply ver_fail e hd v0 st k tc ((st.valid.set k 0).set k (-1)) hv hk htc ha
+    · intro k2 hne; rw [getD_set_ne _ _ _ _ hne, getD_set_ne _ _ _ _ hne]
+    · exact getD_set_self_ne_one _ _ _ (by decide) (getD_set_self_ne_one _ _ _ (by decide) hnv)
+    · simp [zeroChunk]
+    · simp [zeroChunk]
+    · simp [zeroChunk]
+    · simp [zeroChunk, hk]
+  | some acc =>
+    simp only
+    obtain ⟨l1, l2, l3⟩ := hv.link k tc acc hk htc hh
+    generalize hdg : (if tc.compLen = 0 then (hsize e.hdr.chunkHashType).map zeros else e.H e.hdr.chunkHashType acc) = dg
+    by_cases hdd : (dg == some tc.digest) = true
+    · simp only [hdd, ↓reduceIte]
+      refine ⟨?_, ?_, ?_, ?_⟩
+      · intro k2 tc2 h2 ha2 hv2
+        simp only at hv2 ⊢
+        by_cases hne : k2 = k
+        · subst hne
+          have : tc2 = tc := by rw [htc] at h2; simpa using h2.symm
+          subst this
+          unfold ChunkOk
+          have hdg' : dg = some tc2.digest := by simpa using hdd
+          split
+          · rename_i h0; rw [← hdg', ← hdg]; simp [h0]
+          · rename_i h0
+            simp only [h0, ↓reduceIte] at hdg
+            have hl : acc.length = tc2.compLen := by omega
+            have hlen := congrArg List.length l3
+            simp only [List.length_take, List.length_drop] at hlen
+            refine ⟨by omega, ?_⟩
+            rw [← hl, l3, hdg, hdg']
+        · rw [getD_set_ne _ _ _ _ hne] at hv2
+          exact hv.ok k2 tc2 h2 ha2 hv2
+      · intro k2 tc2 acc2 hk2; simp at hk2
+      · intro k2 hk2; simp at hk2
+      · intro k2 hn
+        have hne : k2 ≠ k := by intro heq; subst heq; exact hn ha
+        simp only
+        rw [getD_set_ne _ _ _ _ hne]; exact hv.same k2 hn
+    · simp only [hdd, Bool.false_eq_true, ↓reduceIte]
+      apply ver_fail e hd v0 st k tc (st.valid.set k (-1)) hv hk htc ha
+      · intro k2 hne; rw [getD_set_ne _ _ _ _ hne]
+      · exact getD_set_self_ne_one _ _ _ (by decide) hnv
+      · simp [zeroChunk]
+      · simp [zeroChunk]
+      · simp [zeroChunk]
+      · simp [zeroChunk, hk]
+
+theorem gv_dlVerify (e : Env) (hd : Disj e) (f0 : Bytes) (v0 : List Int) (st : St)
+    (h : GV e f0 v0 st) (hw : st.writeInChunk = 0) :
+    GV e f0 v0 (dlVerify e st).2 ∧ (dlVerify e st).2.writeInChunk = 0 := by
+  unfold dlVerify
+  cases hk : st.tgtCheck with
+  | none => exact ⟨h, hw⟩
+  | some k => exact gv_setChunkValid e hd f0 v0 st k h hk hw
+
+theorem gv_dlOpen (e : Env) (f0 : Bytes) (v0 : List Int) (st : St) (h : GV e f0 v0 st) :
+    GV e f0 v0 (dlOpen e st) := by
+  refine ⟨good_dlOpen e f0 v0 st h.1, ?_⟩
+  obtain ⟨hg, hv⟩ := h
+  unfold dlOpen
+  simp only
+  generalize hcur : (if st.curNull = true ∨ st.cur ≥ e.ridx.length then 0 else st.cur) = cur
+  have hv2 : Ver e v0 { st with cur := cur, curNull := false } := ⟨hv.ok, hv.link, hv.notv, hv.same⟩
+  cases hf : findNext e { st with cur := cur, curNull := false } (e.ridx.drop cur) cur with
+  | none => simp only; exact hv2
+  | some p =>
+    obtain ⟨j, rc⟩ := p
+    simp only
+    obtain ⟨hmem, hnv, tc, htc, hsz⟩ := findNext_spec e _ _ _ _ _ hf
+    simp only at hnv
+    rw [htc]
+    simp only
+    refine ⟨hv.ok, ?_, ?_, hv.same⟩
+    · intro k2 tc2 acc hk2 h2 hacc
+      simp only [Option.some.injEq] at hk2 hacc
+      subst hk2; subst hacc
+      have : tc2 = tc := by rw [htc] at h2; simpa using h2.symm
+      subst this
+      simp only [List.length_nil, List.take_zero]
+      exact ⟨by omega, by omega, trivial⟩
+    · intro k2 hk2
+      simp only [Option.some.injEq] at hk2
+      subst hk2
+      exact hnv
+
+theorem gv_preserved (e : Env) (hd : Disj e) (f0 : Bytes) (v0 : List Int) : Preserved e (GV e f0 v0) where
+  frame := fun st st' h h1 h5 h2 h6 h4 h3 =>
+    ⟨h.1.congr h1 h2 h3 h4 h5,
+     ⟨by rw [h1, h2]; exact h.2.ok, by rw [h1, h3, h4, h5, h6]; exact h.2.link, by rw [h2, h3]; exact h.2.notv,
+      by rw [h2]; exact h.2.same⟩⟩
+  write := fun st at_ h => gv_dlWrite e hd f0 v0 st at_ h
+  verify := fun st h hw => gv_dlVerify e hd f0 v0 st h hw
+  opens := fun st h _ => gv_dlOpen e f0 v0 st h
+
+theorem gv_init (e : Env) (st : St) (h1 : st.tgtCheck = none) (h2 : st.writeInChunk = 0) :
+    GV e st.file st.valid st :=
+  ⟨good_init e st h1 h2,
+   ⟨fun _ _ _ ha hv => absurd hv ha.1, fun k _ _ hk => by rw [h1] at hk; simp at hk,
+    fun k hk => by rw [h1] at hk; simp at hk, fun _ _ => rfl⟩⟩
+
+/-- **C05 / C17 (verification)**: for arbitrary header lines, body bytes, fragmentation, regex answers and hash function —
+a chunk that was not valid before and is marked valid afterwards holds, at its extent in the target file, bytes that hash
+to its index checksum.  (Nothing is assumed about the response: a chunk can only become valid through its checksum.) -/
+theorem verified (e : Env) (hd : Disj e) (st : St) (lines frags : List Bytes) (stop clear : Bool)
+    (h1 : st.tgtCheck = none) (h2 : st.writeInChunk = 0) :
+    let fin := (feed e stop clear (feedHdrs e st lines []).2 frags []).2
+    ∀ k tc, e.hdr.chunks[k]? = some tc → st.valid.getD k 0 ≠ 1 → fin.valid.getD k 0 = 1 → ChunkOk e fin.file tc := by
+  have hg := pres_feed e (gv_preserved e hd st.file st.valid) stop clear frags _ []
+    (pres_feedHdrs e (gv_preserved e hd st.file st.valid) lines st [] (gv_init e st h1 h2))
+  intro fin k tc htc hnv hv
+  by_cases ha : Allowed e st.valid k
+  · exact hg.2.ok k tc htc ha hv
+  · have := hg.2.same k ha
+    rw [this] at hv
+    exact absurd hv hnv
+
+/-- marks change only on requested chunks that were not valid -/
+theorem marks_confined (e : Env) (hd : Disj e) (st : St) (lines frags : List Bytes) (stop clear : Bool)
+    (h1 : st.tgtCheck = none) (h2 : st.writeInChunk = 0) (k : Nat) (hk : ¬ Allowed e st.valid k) :
+    (feed e stop clear (feedHdrs e st lines []).2 frags []).2.valid.getD k 0 = st.valid.getD k 0 :=
+  (pres_feed e (gv_preserved e hd st.file st.valid) stop clear frags _ []
+    (pres_feedHdrs e (gv_preserved e hd st.file st.valid) lines st [] (gv_init e st h1 h2))).2.same k hk
+
+/-! ### checksum mismatch: zero-filled, marked failed, refused -/
+
+/-- the verification of a completed chunk succeeds exactly when the bytes hashed while writing have the index checksum -/
+theorem setChunkValid_iff (e : Env) (st : St) (k : Nat) (tc : Chunk) (acc : Bytes)
+    (htc : e.hdr.chunks[k]? = some tc) (hh : st.hash = some acc) :
+    (setChunkValid e st k).1 = true ↔
+      (if tc.compLen = 0 then (hsize e.hdr.chunkHashType).map zeros else e.H e.hdr.chunkHashType acc) = some tc.digest := by
+  unfold setChunkValid
+  rw [htc]
+  simp only [hh]
+  generalize (if tc.compLen = 0 then (hsize e.hdr.chunkHashType).map zeros else e.H e.hdr.chunkHashType acc) = dg
+  by_cases hd : (dg == some tc.digest) = true
+  · simp only [hd, ↓reduceIte, true_iff]; simpa using hd
+  · simp only [hd, Bool.false_eq_true, ↓reduceIte, false_iff]; simpa using hd
+
+/-- **mismatch**: when the verification fails the chunk's extent is zero-filled and the chunk is marked failed -/
+theorem mismatch_zeroed (e : Env) (st : St) (k : Nat) (tc : Chunk)
+    (htc : e.hdr.chunks[k]? = some tc) (hk : k < st.valid.length) (hf : (setChunkValid e st k).1 = false) :
+    (setChunkValid e st k).2.valid.getD k 0 = -1 ∧
+    (((setChunkValid e st k).2.file.drop (e.dataOff + tc.start)).take tc.compLen = zeros tc.compLen) := by
+  unfold setChunkValid at hf ⊢
+  rw [htc] at hf ⊢
+  simp only at hf ⊢
+  have hrb := fun f => C08.writeAt_readback f (e.dataOff + tc.start) (zeros tc.compLen)
+  simp only [zeros, List.length_replicate] at hrb
+  cases hh : st.hash with
+  | none =>
+    simp only [zeroChunk, zeros]
+    exact ⟨by simp [List.getD, hk], hrb _⟩
+  | some acc =>
+    rw [hh] at hf
+    simp only at hf ⊢
+    generalize (if tc.compLen = 0 then (hsize e.hdr.chunkHashType).map zeros else e.H e.hdr.chunkHashType acc) = dg at hf ⊢
+    by_cases hd : (dg == some tc.digest) = true
+    · simp [hd] at hf
+    · simp only [hd, Bool.false_eq_true, ↓reduceIte, zeroChunk, zeros]
+      exact ⟨by simp [List.getD, hk], hrb _⟩
+
+/-- a failed verification makes `dl_write_range` return 0 -/
+theorem dlSelect_fail (e : Env) (st : St) (h : (dlVerify e st).1 = false) : (dlSelect e st).1 = false := by
+  unfold dlSelect; simp [h]
+
+theorem dlWriteRange_refuses (e : Env) (fuel : Nat) (st st1 : St) (at_ : Bytes) (wb : Nat)
+    (he : st.err = false) (hr : e.ridx.isEmpty = false)
+    (hw : dlWrite st at_ = (some wb, st1)) (h0 : st1.writeInChunk = 0) (hv : (dlVerify e st1).1 = false) :
+    (dlWriteRange e (fuel + 1) st at_).1 = 0 := by
+  unfold dlWriteRange
+  simp [he, hr, hw, h0, dlSelect_fail e st1 hv]
+
+/-- the write callback reports an error (returns 0) when `dl_write_range` does, for a non-empty fragment -/
+theorem cb_refuses_single (e : Env) (st : St) (b : Bytes) (hb : st.boundary = none)
+    (h : (dlWriteRange e (2 * b.length + 2) { st with dlBytes := st.dlBytes + b.length } b).1 = 0) :
+    (writeChunkCb e st b).1 = 0 := by
+  unfold writeChunkCb
+  simp only
+  split
+  · rename_i hx; simp [hb] at hx
+  · simp [h]
+
+theorem runFrom_later : ∀ (l : List Chunk) (n s : Nat), C13.RunFrom n s l → ∀ (k : Nat) (tc : Chunk), l[k]? = some tc → s ≤ tc.start
+  | [], _, _, _, k, tc, h => by simp at h
+  | c :: rest, n, s, hr, 0, tc, h => by
+    simp only [List.getElem?_cons_zero, Option.some.injEq] at h; subst h; exact Nat.le_of_eq hr.2.1.symm
+  | c :: rest, n, s, hr, k + 1, tc, h => by
+    simp only [List.getElem?_cons_succ] at h
+    have := runFrom_later rest _ _ hr.2.2 k tc h
+    omega
+
+theorem runFrom_disj : ∀ (l : List Chunk) (n s : Nat), C13.RunFrom n s l → ∀ (k k' : Nat) (tc tc' : Chunk),
+    l[k]? = some tc → l[k']? = some tc' → k < k' → tc.start + tc.compLen ≤ tc'.start
+  | [], _, _, _, k, _, tc, _, h, _, _ => by simp at h
+  | c :: rest, n, s, hr, 0, 0, tc, tc', h, h', hlt => by omega
+  | c :: rest, n, s, hr, 0, k' + 1, tc, tc', h, h', _ => by
+    simp only [List.getElem?_cons_zero, Option.some.injEq] at h; subst h
+    simp only [List.getElem?_cons_succ] at h'
+    have := runFrom_later rest _ _ hr.2.2 k' tc' h'
+    rw [hr.2.1]; exact this
+  | c :: rest, n, s, hr, k + 1, 0, tc, tc', h, h', hlt => by omega
+  | c :: rest, n, s, hr, k + 1, k' + 1, tc, tc', h, h', hlt => by
+    simp only [List.getElem?_cons_succ] at h h'
+    exact runFrom_disj rest _ _ hr.2.2 k k' tc tc' h h' (by omega)
+
+/-- extents of the chunks of an index whose starts are running sums do not overlap -/
+theorem disj_of_runFrom (e : Env) (h : C13.RunFrom 0 0 e.hdr.chunks) : Disj e := by
+  intro k k' tc tc' hk hk' hne
+  rcases Nat.lt_or_gt_of_ne hne with hlt | hgt
+  · left; exact runFrom_disj _ _ _ h k k' tc tc' hk hk' hlt
+  · right; exact runFrom_disj _ _ _ h k' k tc' tc hk' hk hgt
+
+/-- **every header the library's parser accepts has non-overlapping chunk extents** (so `verified` applies to it) -/
+theorem disj_of_open (H : HashFn) (f : Bytes) (e : Env) (hok : Header.openFile H f = .ok e.hdr)
+    (hsmall : e.hdr.lead + e.hdr.headerLen ≤ 2^63 - 1) : Disj e :=
+  disj_of_runFrom e (C13.open_sound H f e.hdr hok hsmall).2.2.1
 
 end Zck.C05
